@@ -108,3 +108,11 @@ func errName(err error) string {
 }
 
 func yield() { runtimeGosched() }
+
+// A caller may do with a returned slice what Go allows - including append. If the library hands out a slice whose spare capacity
+// reaches into memory it still uses (a neighbouring key or value), the append damages it: every driver pokes its results this way.
+func pokeReturned(b []byte) {
+	if b != nil && cap(b) > len(b) {
+		_ = append(b, 0xEE, 0xEE, 0xEE)
+	}
+}
